@@ -65,7 +65,7 @@ int hx_in_child(void (*fn)(void *arg, FILE *o), void *arg, char *outbuf, size_t 
     return 2;
 }
 
-static const hx_op *const tables[] = { ops_c14, ops_c16, ops_c15, ops_c03, ops_c04, ops_c09, ops_c01, ops_c18, ops_c17, ops_c20, ops_c10, ops_c05, ops_c13, NULL };
+static const hx_op *const tables[] = { ops_c14, ops_c16, ops_c15, ops_c03, ops_c04, ops_c09, ops_c01, ops_c18, ops_c17, ops_c20, ops_c10, ops_c05, ops_c13, ops_c08, NULL };
 
 int main(void) {
     char *line = NULL; size_t cap = 0; ssize_t n;
